@@ -157,6 +157,9 @@ func (b *Built) build(s *Spec) (res error) {
 	case "uoptleaf":
 		return &UOpt{S(0), nil}
 	case "uleafas":
+		if len(s.I) > 0 && s.I[0] == 1 {
+			return &ULeafAs{S(0), nil}
+		}
 		return &ULeafAs{S(0), &ULeafPtr{"as:" + S(0)}}
 
 	// wrappers
@@ -205,6 +208,9 @@ func (b *Built) build(s *Spec) (res error) {
 		return errors.WithIssueLink(c, errors.IssueLink{IssueURL: S(0), Detail: S(1)})
 	case "tags":
 		ctx := context.Background()
+		if len(s.S) == 0 {
+			ctx = logtags.RemoveTag(logtags.AddTag(ctx, "k", nil), "k")
+		}
 		for i := 0; i*2 < len(s.S); i++ {
 			switch s.I[i] {
 			case 1:
@@ -264,6 +270,14 @@ func (b *Built) build(s *Spec) (res error) {
 		return fmt.Errorf("%s: %w", S(0), c)
 	case "goerrorfsuffix":
 		return fmt.Errorf("%w - %s", c, S(0))
+	// wrappers whose own message ends with a copy of the cause's text
+	// ("retry failed: <cause>" in front of the cause)
+	case "goerrorfecho":
+		return fmt.Errorf("%s: %s: %w", S(0), c.Error(), c)
+	case "pkgmsgecho":
+		return pkgErr.WithMessage(c, S(0)+": "+c.Error())
+	case "wrapecho":
+		return errors.Wrap(c, S(0)+": "+c.Error())
 	case "ospath":
 		return &os.PathError{Op: S(0), Path: S(1), Err: c}
 	case "oslink":
